@@ -2047,7 +2047,18 @@ static void compile_stmt(CG *cg, ASTNode *node) {
 
     switch (node->type) {
     case AST_LET: {
-        compile_expr(cg, node->as.let.value);
+        ASTNode *let_val = node->as.let.value;
+        TypeInfo *let_ti = node->as.let.type_info;
+        if (node->as.let.var_type == TYPE_HASHMAP && let_ti && let_ti->type_param_count == 2 &&
+            let_val && let_val->type == AST_CALL && let_val->as.call.name &&
+            strcmp(let_val->as.call.name, "map_new") == 0 && let_val->as.call.arg_count == 0) {
+            /* let m: HashMap<K,V> = (map_new): the annotation gives the key and value types */
+            emit_op(cg, OP_HM_NEW,
+                    let_ti->type_params[0]->base_type == TYPE_STRING ? TAG_STRING : TAG_INT,
+                    let_ti->type_params[1]->base_type == TYPE_STRING ? TAG_STRING : TAG_INT);
+        } else {
+            compile_expr(cg, let_val);
+        }
         uint16_t slot = local_add(cg, node->as.let.name, node->line);
         /* Track struct type for field access resolution */
         if (node->as.let.type_name) {
